@@ -82,6 +82,14 @@ def gen(props, tier, rng):
         # the serialised forward mapping is the one Python built: duplicates (by bits) removed, insertion order kept
         yield f'json rule {e_rule(canon_rule(rule))}'
         for f in rule['fields'][:3]: yield f'json rfield {e_rfield(canon_rfield(f))}'
+        if i < (12 if q else 60):
+            # serialisation must not depend on the target-value type agreeing with the operator or the action: every
+            # (MO, CDA) pair over a Buffer and over a mapping target value (ignore + mapping-sent is a working combination)
+            for f in rule['fields'][:2]:
+                for mo in ('eq', 'ig', 'msb', 'mm'):
+                    for cda in ('ns', 'lsb', 'ms', 'vs', 'co'):
+                        g = dict(canon_rfield(f)); g['mo'] = mo; g['cda'] = cda
+                        yield f'json rfield {e_rfield(g)}'
         for f in pkt['fields'][:2]: yield f'json field {e_field(f)}'
         yield f'json packet {e_packet(pkt)}'
         # descriptors whose fields + payload do not spell the raw packet (semantic CoAP view, right-padded raw buffers)
